@@ -271,7 +271,13 @@ def run(ctx):
                 if real.startswith('ok '):
                     payload = bytes.fromhex(real[3:]) if real[3:] != '-' else b''
                     if not canonical(t, payload):
-                        hrow = next(r for r in table if len(t) == r[1] and t.startswith(r[0]))
+                        hrow = next((r for r in table if len(t) == r[1] and t.startswith(r[0])), None)
+                        if hrow is None:
+                            # no row of the table has this (length, prefix) at all
+                            ctx.violation('decode-accepts-wrong-length' if t == t.rstrip() else 'decode-accepts-trailing-whitespace',
+                                          f'base58_decode({t!r}) = {payload.hex()}: the string has {len(t)} characters, no registered kind with this prefix has that length '
+                                          f'(made from the valid {s.decode()} by {kind})', {'op': 'decode', 'string': t.decode('latin1'), 'got': payload.hex(), 'corruption': kind})
+                            continue
                         try:
                             rawt = base58.b58decode(t)
                         except ValueError:
